@@ -51,6 +51,8 @@ func c04Ops(wide bool) []c04Op {
 	ops = append(ops, c04Op{"copy(y=x)", "copy", "y", "x"}, c04Op{"copy(x=y)", "copy", "x", "y"},
 		c04Op{"print(x++)", "step", "x", "inc"}, c04Op{"print(y--)", "step", "y", "dec"},
 		c04Op{"for(i=x;up)", "forfrom", "x", "inc"}, c04Op{"for(i=y;down)", "forfrom", "y", "dec"})
+	// loops that never run a pass: what follows is their @else block, which is a block of the loop construct
+	ops = append(ops, c04Op{"each(v in [])@else", "eachelse", "v", ""}, c04Op{"for(i;never)@else", "forelse", "i", ""})
 	return ops
 }
 
@@ -199,6 +201,23 @@ func c04Build(cs c04Case, maxDepth int) (tree []*Node, ok bool) {
 			emit(n)
 			stack = append(stack, frame{node: n, collect: &n.Body})
 			emit(nText("L:"))
+		case "eachelse", "forelse":
+			if len(stack) > maxDepth {
+				return nil, false
+			}
+			var n *Node
+			if op.kind == "eachelse" {
+				n = &Node{K: "each", Name: op.v, E: &Expr{Op: "arr"}}
+			} else {
+				n = &Node{K: "for", Init: nAssign(op.v, eLit(vInt(0))), Cond: eBin("<", eVar(op.v), eLit(vInt(0))),
+					Post: nPrint(&Expr{Op: "inc", Kids: []*Expr{eVar(op.v)}})}
+			}
+			n.Body = []*Node{nText("never")}
+			n.HasElse = true
+			emit(nText("("))
+			emit(n)
+			stack = append(stack, frame{node: n, inElse: true, collect: &n.Else})
+			emit(nText("N:"))
 		case "forbare", "forcond":
 			if len(stack) > maxDepth {
 				return nil, false
@@ -365,7 +384,7 @@ func c04Run(c *Ctx) {
 						reads++
 					case "assign":
 						assigns++
-					case "if", "iffalse", "each", "for", "forbare", "forcond":
+					case "if", "iffalse", "each", "for", "forbare", "forcond", "eachelse", "forelse":
 						blocks++
 					}
 				}
@@ -435,7 +454,7 @@ func init() {
 	p := &Property{
 		ID:    "C04",
 		Level: "exploration",
-		Rule: "bounded-exhaustive operation sequences: every well-nested sequence of <=k operations from {assign(x|y, int|str|nil), assign(loop), read(x), read(y), open @if(true), open @if(false), switch to @else, open @each with loop variable x|y|v over int|str elements, open @for with variable x|y|i, close} up to a nesting depth, times every data map that pre-binds x and y to nothing / an int / a string (plus maps with loop, nil and an array); the template prints a marker and the value at every read.  [as built: plus copy(y=x), copy(x=y), print(x++), print(y--), for(i=x;up), for(i=y;down) (values taken from other variables never write through), a float data map, and a template-file leg: every sequence of <=2 ops rendered twice through Template.String next to a page binding the same names]" +
+		Rule: "bounded-exhaustive operation sequences: every well-nested sequence of <=k operations from {assign(x|y, int|str|nil), assign(loop), read(x), read(y), open @if(true), open @if(false), switch to @else, open @each with loop variable x|y|v over int|str elements, open @for with variable x|y|i, close} up to a nesting depth, times every data map that pre-binds x and y to nothing / an int / a string (plus maps with loop, nil and an array); the template prints a marker and the value at every read.  [as built: plus copy(y=x), copy(x=y), print(x++), print(y--), for(i=x;up), for(i=y;down) (values taken from other variables never write through), @each over an empty array / @for whose condition is false at entry with what follows standing in their @else block, a float data map, and a template-file leg: every sequence of <=2 ops rendered twice through Template.String next to a page binding the same names]" +
 			"The reference keeps a stack of block scopes. Non-trivial: the sequence opens a block and reads or assigns inside/after it",
 		Bounds: func(tier string) map[string]any {
 			if tier == "thorough" {
